@@ -305,20 +305,28 @@ def run(ctx):
     (ctx.bad if probs else ctx.ok)("W-LAYOUT", "W-LAYOUT:dns", tm.span, "; ".join(probs[:4]) if probs else "encoder and decoder agree on %d positions" % len(ae))
     # IPv4: serialize maps header fields to builder fields one-to-one
     ser = prog.method("Ipv4Header", "serialize")
-    ag = K.aggregates(ser, "ipv4_parsing::Ipv4HeaderBuilder")
+    from .. import symx as S
     probs = []
-    if len(ag) != 1:
-        probs.append("serialize does not build one Ipv4HeaderBuilder")
+    badt = prog.adt("ipv4_parsing::Ipv4HeaderBuilder")
+    fnames = [f["name"] for f in badt["variants"][0]["fields"]]
+    inl = [k for k, x in prog.bodies.items() if x.kind == "method" and x.self_ty is not None and x.types[x.self_ty].get("d", "") == badt["key"] and x.name != "build" and not x.derived]
+    try:
+        t, _ex = S.extract(prog, ser, inline=inl)
+    except S.Unsupported as e:
+        ctx.require(False, "W-LAYOUT: cannot extract Ipv4Header::serialize (%s)" % e)
+    # the value handed to build(): a struct literal or new(..) followed by setters, all reduced to one aggregate
+    if not (t[0] == "call" and t[1].endswith("{impl#1}::build") and len(t[2]) == 1 and t[2][0][0] == "agg" and len(t[2][0][2]) == len(fnames)):
+        probs.append("serialize is not build() of one fully determined Ipv4HeaderBuilder value: %s" % S.term_str(t)[:200])
     else:
-        st = ag[0][1]
-        for f, op in zip(st[2][1]["fields"], st[2][2]):
-            e = dep.tree_str(dep.expr_tree(ser, op, 10))
-            want = "self." + {"payload_length": "total_length"}.get(f, f)
+        me = ("param", "self")
+        base = prog.const_val("ipv4_parsing::BASE_OCTETS")
+        for f, x in zip(fnames, t[2][0][2]):
             if f == "payload_length":
-                if e != "(self.total_length - BASE_OCTETS)":
-                    probs.append("payload_length = %s, expected self.total_length - BASE_OCTETS" % e)
-            elif e != want:
-                probs.append("builder.%s = %s, expected %s" % (f, e, want))
+                want = S.lin(("bin", "Sub", ("field", me, "total_length"), ("const", base)))
+                if S.lin(x) != want:
+                    probs.append("payload_length = %s, expected self.total_length - %d" % (S.term_str(x), base))
+            elif x != ("field", me, f):
+                probs.append("the re-encoded header takes %s from %s instead of the decoded header's %s" % (f, S.term_str(x), f))
     (ctx.bad if probs else ctx.ok)("W-LAYOUT", "W-LAYOUT:ipv4:serialize", ser.span, "; ".join(probs) if probs else "Ipv4Header::serialize hands every header field to the builder field of the same name")
     ctx.extra["layouts"] = samples
 
